@@ -6,7 +6,7 @@
 (* <<property id, predicate name>>.                                         *)
 (***************************************************************************)
 EXTENDS Naturals, Integers, Sequences, FiniteSets, SequencesExt,
-        FiniteSetsExt, Functions, TLC, Text, Vlq, SMap, Sem, Attr, Compose, Rope
+        FiniteSetsExt, Functions, TLC, Text, Vlq, SMap, Sem, Attr, Compose, Rope, EncM
 
 NREG == 16
 EmptyHeap == [i \in 0..(NREG - 1) |-> Nil]
@@ -731,12 +731,15 @@ Checks(r, st) ==
       [] r.op = "codec" ->
            IF CodecDomain(SegsOf(r.segs))
              THEN {<<"C12", "decode_matches_format">>, <<"C12", "roundtrip_resolves_same">>,
-                   <<"C12", "kept_is_subsequence">>, <<"C12", "reencode_stable">>}
+                   <<"C12", "kept_is_subsequence">>, <<"C12", "reencode_stable">>,
+                   <<"DRIFT", "full_encoder_follows_EncM">>}
              ELSE {}
       [] r.op = "decode" ->
            IF WellFormedMappings(r.m) THEN {<<"C12", "decoder_matches_format">>} ELSE {}
       [] r.op = "lines_encode" ->
-           IF CodecDomain(SegsOf(r.segs)) THEN {<<"C12", "lines_only_first_mapped">>} ELSE {}
+           IF CodecDomain(SegsOf(r.segs))
+             THEN {<<"C12", "lines_only_first_mapped">>, <<"DRIFT", "lines_encoder_follows_EncM">>}
+             ELSE {}
       [] r.op = "vlq_batch" -> {<<"C12", "vlq_digits">>}
       [] OTHER -> {}
 
@@ -833,6 +836,10 @@ Holds(c, r, st) ==
     [] c = <<"C18", "cached_value_never_replaced">> -> st.stored[<<r.obj, r.key>>] = r.ident
     [] c = <<"C19", "cached_map_borrow_stays_valid">> -> st.stored[<<r.obj, r.key>>] = r.ident
     [] c = <<"C18", "no_deadlock">> -> r.outcome # "deadlock"
+    [] c = <<"DRIFT", "full_encoder_follows_EncM">> -> r.out.m = EncodeFullM(SegsOf(r.segs))
+    [] c = <<"DRIFT", "lines_encoder_follows_EncM">> ->
+         LET m == EncodeLinesM(SegsOf(r.segs))
+         IN r.out.m = IF m = <<>> THEN <<>> ELSE <<m>>
     [] c = <<"DRIFT", "schedule_replayed">> ->
          /\ r.outcome = "completed"
          /\ r.schedule_len > 0 => (r.scheduled = r.schedule_len /\ r.extra = 0)
